@@ -26,6 +26,7 @@ type c01Case struct {
 	Run2Perm []int      `json:"run2_order"` // order of tests in run 2
 	Record   string     `json:"record"`     // env | option : how updating is enabled in run 1
 	Count2   int        `json:"run2_count"` // run 2 executes every test this many times (-count)
+	Inter2   []int      `json:"run2_interleave,omitempty"` // if set: run 2 interleaves the tests like parallel tests (choices of which live test moves next)
 }
 
 // genMultiCall draws a multi-entry call (MatchSnapshot / MatchJSON / MatchYAML) for config index cfg.
@@ -117,6 +118,10 @@ func genC01(t *rapid.T) c01Case {
 	c.Run2Perm = rapid.Permutation(indices(ntests)).Draw(t, "perm")
 	c.Record = rapid.SampledFrom([]string{"env", "option"}).Draw(t, "record")
 	c.Count2 = rapid.SampledFrom([]int{1, 1, 1, 2, 3}).Draw(t, "count2")
+	if ntests > 1 && rapid.IntRange(0, 2).Draw(t, "interleave2") == 0 {
+		c.Count2 = 1
+		c.Inter2 = rapid.SliceOfN(rapid.IntRange(0, 7), 4, 40).Draw(t, "inter2")
+	}
 	return c
 }
 
@@ -185,6 +190,47 @@ func checkC01(c c01Case) error {
 	newProcess(mode)
 	cfgs = buildCfgs(root, c.Cfgs, upd)
 	before := snapDir(root)
+	if len(c.Inter2) > 0 {
+		// all tests are live at once; the choice list says which test makes its next call (or finishes)
+		fts := make([]*fakeT, len(c.Tests))
+		next := make([]int, len(c.Tests))
+		live := len(c.Tests)
+		for step := 0; live > 0; step++ {
+			pick := step
+			if step < len(c.Inter2) {
+				pick = c.Inter2[step]
+			}
+			var alive []int
+			for i := range c.Tests {
+				if next[i] <= len(c.Tests[i].Calls) {
+					alive = append(alive, i)
+				}
+			}
+			ti := alive[pick%len(alive)]
+			tp := c.Tests[ti]
+			if fts[ti] == nil {
+				fts[ti] = newFakeT(tp.Name)
+			}
+			if next[ti] == len(tp.Calls) {
+				fts[ti].finish()
+				next[ti]++
+				live--
+				continue
+			}
+			call := tp.Calls[next[ti]]
+			next[ti]++
+			r := call.invoke(cfgs[call.Cfg], fts[ti])
+			out, err := outcomeOf(r)
+			if err != nil || out != oPassed {
+				return fmt.Errorf("run 2 (interleaved replay, mode %s) %s call %d (%s): outcome %q err %v; errors=%q logs=%q",
+					c.Run2Mode, tp.Name, next[ti], call.API, out, err, clipAll(r.Errors), clipAll(r.Logs))
+			}
+		}
+		if d := diffDirs(before, snapDir(root), false); d != "" {
+			return fmt.Errorf("run 2 (interleaved replay) changed the snapshot directory: %s", d)
+		}
+		return nil
+	}
 	var order []int
 	for i := 0; i < max(c.Count2, 1); i++ {
 		order = append(order, c.Run2Perm...)
@@ -253,6 +299,9 @@ func classifyC01(c c01Case) ([]string, bool) {
 	}
 	if c.Count2 > 1 {
 		cls = append(cls, "replay_with_count_gt_1")
+	}
+	if len(c.Inter2) > 0 {
+		cls = append(cls, "interleaved_replay")
 	}
 	cls = uniq(cls)
 	return append(cls, "mode2_"+c.Run2Mode), len(cls) > 0
